@@ -293,6 +293,50 @@ theorem feed_line (hw : 1 ≤ w) (hcur : cur.length = w) (href : ref.length = w)
 
 end line
 
+/-! ### the encoder's fuel -/
+
+/-- Any amount of fuel ≥ the number of pixels still to be coded gives the same code: the stated fuel
+`cur.length + 1` of `encodeLine` is never exhausted. -/
+theorem encodeLineAux_fuel {w : Nat} {ref cur : List Bool} (hcur : cur.length = w) (href : ref.length = w) :
+    ∀ (f1 f2 : Nat) (a0 : Int) (color : Bool) (chs : List T6.Choice), -1 ≤ a0 →
+      (w : Int) - a0 ≤ f1 → (w : Int) - a0 ≤ f2 →
+      T6.encodeLineAux ref cur f1 a0 color chs = T6.encodeLineAux ref cur f2 a0 color chs := by
+  intro f1
+  induction f1 with
+  | zero =>
+    intro f2 a0 color chs _ h1 _
+    rw [encodeLineAux_done 0 a0 color chs (by omega), encodeLineAux_done f2 a0 color chs (by omega)]
+  | succ f1 ih =>
+    intro f2 a0 color chs hlo h1 h2
+    by_cases hd : (cur.length : Int) ≤ a0
+    · rw [encodeLineAux_done _ a0 color chs hd, encodeLineAux_done f2 a0 color chs hd]
+    · cases f2 with
+      | zero => omega
+      | succ f2 =>
+        simp only [T6.encodeLineAux, hd, if_false]
+        have ha1lo : (a0 + 1).toNat ≤ T6.nextNot cur color (a0 + 1).toNat := nextNot_ge _ _ _
+        cases hres : T6.resolve (chs.headD .std) (T6.nextNot cur color (a0 + 1).toNat)
+            (T6.b1Of ref color (a0 + 1).toNat) (T6.b2Of ref color (T6.b1Of ref color (a0 + 1).toNat)) with
+        | pass =>
+          simp only []
+          have hp := resolve_pass hres
+          have hb1 : (a0 + 1).toNat ≤ T6.b1Of ref color (a0 + 1).toNat := b1Of_ge _ _ _
+          have hb2 : T6.b1Of ref color (a0 + 1).toNat < T6.b2Of ref color (T6.b1Of ref color (a0 + 1).toNat) := by
+            have hdef : T6.b2Of ref color (T6.b1Of ref color (a0 + 1).toNat) = min ref.length
+                (T6.b1Of ref color (a0 + 1).toNat + 1 +
+                  ((ref.drop (T6.b1Of ref color (a0 + 1).toNat + 1)).takeWhile (· == !color)).length) := rfl
+            have : T6.nextNot cur color (a0 + 1).toNat ≤ cur.length := nextNot_le _ _ _ (by omega)
+            omega
+          rw [ih f2 _ color chs.tail (by omega) (by omega) (by omega)]
+        | vert =>
+          simp only []
+          rw [ih f2 _ (!color) chs.tail (by omega) (by omega) (by omega)]
+        | horiz =>
+          simp only []
+          have ha2 : T6.nextNot cur color (a0 + 1).toNat ≤
+              T6.nextNot cur (!color) (T6.nextNot cur color (a0 + 1).toNat) := nextNot_ge _ _ _
+          rw [ih f2 _ color chs.tail (by omega) (by omega) (by omega)]
+
 /-! ### bits and octets -/
 
 theorem bitsOfByte_byteOfBits : ∀ b0 b1 b2 b3 b4 b5 b6 b7 : Bool,
